@@ -123,6 +123,7 @@ INST_KINDS = {
     "pair_all": {"bin": [("ScBin", "add"), ("ScBin", "div")], "neg": [("ScUn", "neg")], "cmp": [("ScCmp", "cmp")], "ident": [("ScIdent", "ident")],
                  "quot": [("ScQuot", "quotient")], "conv": [("ScConv", "conv")], "roundtrip": [("ScRoundTrip", "roundtrip")]},
     "quot_all": {"quot": [("ScQuot", "quotient")]},
+    "conv_all": {"conv": [("ScConv", "conv")]},
     "cmp_all": {"cmp": [("ScCmp", "cmp")]},
     "single_all": {"conv": [("ScConv", "conv")]},
     "el_pair": {"elbin": [("ElBin", "add")], "elneg": [("ElUn", "neg")], "elshift": [("ElShift", "shl")], "ellimits": [("ElLimits", "limits")]},
@@ -260,6 +261,9 @@ SCALED_CORE_PAIRS = [
     "SI<cnl::elastic_integer<12, unsigned>,-4,2>, SI<cnl::elastic_integer<10>,-6,2>",
     "cnl::elastic_scaled_integer<8, cnl::power<-2>, unsigned>, cnl::elastic_scaled_integer<8, cnl::power<-2>>",
     "SI<cnl::elastic_integer<30>,-10,2>, SI<cnl::elastic_integer<30, unsigned>,-10,2>",
+    # elastic representations on both sides of the 31-digit storage boundary (one operand needs a wider native type)
+    "SI<cnl::elastic_integer<40>,-8,2>, SI<cnl::elastic_integer<10>,-4,2>", "SI<cnl::elastic_integer<10>,-4,2>, SI<cnl::elastic_integer<40>,-8,2>",
+    "SI<cnl::elastic_integer<33, unsigned>,-2,2>, SI<cnl::elastic_integer<7>,0,2>",
     # exponent differences equal to / one off the digit count of the representation (conversions shift every digit out)
     "SI<i8,-7,2>, i32", "SI<i16,-15,2>, i32", "SI<i8,0,2>, SI<i8,7,2>", "SI<i16,-15,2>, SI<i16,0,2>",
     "SI<i8,-8,2>, i16", "SI<u8,-8,2>, u8", "SI<i8,-6,2>, i8", "SI<u16,-16,2>, SI<u16,1,2>",
@@ -285,6 +289,13 @@ SCALED_CORE_CMPS = [
     "cnl::elastic_integer<33>, i16", "SI<u8,-8,2>, i32", "SI<i32,-16,2>, i64", "SI<i16,-4,2>, u32", "SI<u16,2,2>, i8",
     "SI<i8,-2,10>, i32", "SI<cnl::elastic_integer<6, unsigned>,-3,2>, i64",
     "cnl::elastic_scaled_integer<9, cnl::power<-4>, unsigned>, i32",
+]
+
+
+# conversions between a binary and a decimal scale (conversions only)
+SCALED_CORE_CONVS = [
+    "SI<i32,0,2>, SI<i32,2,10>", "SI<i32,-4,2>, SI<i64,-2,10>", "SI<i16,3,2>, SI<i32,1,10>", "SI<i32,-3,10>, SI<i32,-8,2>",
+    "SI<i64,-6,10>, SI<i64,-20,2>", "SI<u32,2,10>, SI<u32,-3,2>", "SI<i8,0,2>, SI<i32,-2,10>", "SI<i32,1,10>, SI<i32,4,2>",
 ]
 
 
@@ -316,7 +327,8 @@ def scaled_inst_files(tier):
     items = ["pair_all<%s>(out, %d);" % (p, k + 1) for k, p in enumerate(pairs)] + \
             ["single_all<%s>(out, %d);" % (p, k + 1001) for k, p in enumerate(singles)] + \
             ["cmp_all<%s>(out, %d);" % (p, k + 2001) for k, p in enumerate(SCALED_CORE_CMPS)] + \
-            ["quot_all<%s>(out, %d);" % (p, k + 3001) for k, p in enumerate(SCALED_CORE_QUOTS)]
+            ["quot_all<%s>(out, %d);" % (p, k + 3001) for k, p in enumerate(SCALED_CORE_QUOTS)] + \
+            ["conv_all<%s>(out, %d);" % (p, k + 4001) for k, p in enumerate(SCALED_CORE_CONVS)]
     nfiles = vlib.NCPU if tier == "quick" else 2 * vlib.NCPU
     d = os.path.join(vlib.BUILD, "gen")
     files = []
@@ -359,7 +371,9 @@ def scaled_attr(kind, op, tag, diag):
 NWT = {8: ("i8", "u8"), 32: ("i32", "u32"), 64: ("i64", "u64")}
 ELASTIC_CORE = ["E<3>, E<3>", "E<7>, E<8, u32>", "E<31>, E<31>", "E<31>, E<32, u32>", "E<40>, E<31>", "E<31>, E<40>",
                 "E<63>, E<63>", "E<63, u64>, E<1>", "E<15, i8>, E<16, u8>", "E<20>, i32", "u16, E<9>", "E<64, u32>, E<62>",
-                "E<33>, E<2, u8>", "E<1>, E<1, u8>", "E<8, i64>, E<8, i64>"]
+                "E<33>, E<2, u8>", "E<1>, E<1, u8>", "E<8, i64>, E<8, i64>",
+                # an elastic type with an unsigned narrowest against signed built-in operands, either side
+                "E<5, u32>, i32", "E<16, u16>, i16", "i64, E<8, u8>", "i8, E<12, u32>"]
 
 
 def elastic_jobs(tier):
